@@ -47,6 +47,10 @@ def dependencies(decls, text_of, sandbox_parse):
 def make_variants(seed_key, p_bad):
     r = random.Random(seed_key)
     g = front.Gen(r, p_bad=p_bad, max_decls=r.choice([2, 3, 5, 7]), dup_names=False, comments=r.random() < 0.5)
+    g.well_typed = p_bad == 0.0
+    rich = r.random() < 0.35
+    if rich:
+        g.p_async, g.kind_choices, g.flag_counts = 0.7, ['interface'] * 4 + ['record', 'enum', 'error'], [0, 1, 1, 2]   # support files that exist once per run (async helpers) must not depend on which declaration comes last
     decls = g.program()
     texts = [decl_text(d, None, 'min') for d in decls]
     base = "\n".join(texts)
@@ -57,6 +61,8 @@ def make_variants(seed_key, p_bad):
     order = list(range(len(decls)))
     r.shuffle(order)
     variants["permute"] = {"/w/m.djinni": "\n".join(texts[i] for i in order)}
+    if rich and len(decls) > 2:
+        variants["reverse"] = {"/w/m.djinni": "\n".join(reversed(texts))}
     return decls, texts, variants, r
 
 
@@ -86,7 +92,7 @@ def run(ctx):
                             "non-trivial = more than one declaration")
     ctx.assumptions += ["the bridging header (objc.swift.bridging_header) and the yaml out_file mode list declarations in source order by construction; "
                         "they are not configured here (recorded in DESIGN.md as order-dependent outputs)"]
-    n = ctx.n(260, 3000)
+    n = ctx.n(160, 3000)
     progs = []
     # ---- phase 1: parse the original to learn the dependency graph ----------------------------
     todo1 = []
@@ -182,6 +188,14 @@ def run(ctx):
                 continue
             if g["kind"] != o["kind"] or g["files"] != o["files"] or (g["kind"] != "ok" and g["stage"] != o["stage"]):
                 changed = sorted(k for k in set(g["files"]) | set(o["files"]) if g["files"].get(k) != o["files"].get(k))
+                over = set(g.get("overwritten", [])) | set(o.get("overwritten", []))
+                if changed and set(changed) <= over and g["kind"] == o["kind"] and set(g["files"]) == set(o["files"]):
+                    # every file that differs is one that two declarations of the program were both written to in the
+                    # same run (finding of C15): it holds whichever was written last
+                    ctx.report("layout:overwritten-path-holds-last-writer", f"a file that two declarations are written to changes under '{vname}'",
+                               {"input": {"original": progs[pi]["variants"]["original"], "variant": progs[pi]["variants"][vname]}, "variant": vname,
+                                "changed_files": changed[:10], "overwritten": sorted(over)[:10]})
+                    continue
                 ctx.report(f"layout:{vname}:generated-files-change", f"generated files change under '{vname}'",
                            {"input": {"original": progs[pi]["variants"]["original"], "variant": progs[pi]["variants"][vname]}, "variant": vname,
                             "changed_files": changed[:10], "original": {"kind": o["kind"], "stage": o["stage"]}, "variant_outcome": {"kind": g["kind"], "stage": g["stage"], "diags": g["diags"][:2]}})
